@@ -209,6 +209,8 @@ def stepK (c : Cfg) (outcome : Bytes → BodyOutcome) (s : KSt) : Ev → Option 
     else none
   | _ => none
 
+def isCall : FlowStmt → Bool | .call _ _ => true | _ => false
+
 def runK (c : Cfg) (outcome : Bytes → BodyOutcome) : List Ev → KSt → Option KSt
   | [], s => some s
   | e :: t, s => (stepK c outcome s e).bind (runK c outcome t)
